@@ -3,7 +3,7 @@
    of references in it -- the operands may be the SAME object --: the method returns (a reference to) an object whose bits are the
    list operation on the operands' bits, and says what happened to the objects that were there. *)
 From Coq Require Import ZArith List Bool Lia Arith.
-From MS Require Import PyBase Buffer Bits ByteFacts BufferAbs Schc BufferSpec BufferHeap BufferHeapSpec.
+From MS Require Import PyBase Buffer Bits ByteFacts BufferAbs Schc Compute BufferSpec BufferHeap BufferHeapSpec.
 Import ListNotations.
 Open Scope Z_scope.
 
@@ -120,6 +120,82 @@ Proof.
   - destruct H as (-> & w' & E' & N). injection E' as <-. exists w, h'. auto 8.
   - discriminate H.
   - discriminate H.
+Qed.
+
+(* ~ : a new object with every bit flipped; value(): the integer the bits spell, no object touched; chunks(): new objects, one per piece *)
+Theorem obj_invert r h b : nth_error h r = Some b -> canon b ->
+  exists x v h', h_invert r h = (Ok x, h') /\ nth_error h' x = Some v /\ canon v /\ bside v = bside b /\ abs v = map negb (abs b).
+Proof.
+  intros Er C. destruct (invert_bits b C) as (v & Ev & Cv & Sv & Av).
+  pose proof (h_invert_refines h r b Er) as H.
+  destruct (h_invert r h) as [[x|x|] h']; rewrite Ev in H.
+  - destruct H as (w & Ew & Nw). injection Ew as <-. exists x, v, h'. auto.
+  - discriminate H.
+  - discriminate H.
+Qed.
+
+Theorem obj_value r h b : nth_error h r = Some b -> canon b ->
+  fst (h_value r h) = Ok (Z_of_bits (abs b)) /\ extends h (snd (h_value r h)).
+Proof.
+  intros Er C. destruct (h_value_refines r h b Er) as [E X]. split; [|exact X]. rewrite E. apply value_bits. exact C.
+Qed.
+
+Theorem obj_chunks r n p h b : nth_error h r = Some b -> canon b -> 0 < n ->
+  exists l vs h', h_chunks r n p h = (Ok l, h') /\ extends h h' /\ Forall2 (fun x v => nth_error h' x = Some v) l vs /\
+                  Forall canon vs /\ map abs vs = Compute.chunks (Z.to_nat n) p (abs b).
+Proof.
+  intros Er C N. destruct (chunks_bits b n p C N) as (vs & Ev & Cv & Av).
+  pose proof (h_chunks_refines r n p h b Er) as H.
+  destruct (h_chunks r n p h) as [[l|x|] h']; rewrite Ev in H.
+  - destruct H as (X & ws & Ew & F). injection Ew as <-. exists l, vs, h'. auto 6.
+  - destruct H as [_ H]. discriminate H.
+  - destruct H as [_ H]. discriminate H.
+Qed.
+
+(* copy(): the next free object, equal to the original; single-bit indexing: a new one-bit object; single-bit assignment: the receiver *)
+Theorem obj_copy r h b : nth_error h r = Some b -> canon b -> h_copy r h = (Ok (length h), h ++ [b]).
+Proof.
+  intros Er C. pose proof (h_copy_refines r h b Er) as H. rewrite (copy_bits b C) in H.
+  destruct (h_copy r h) as [[x|x|] h'].
+  - destruct H as (w & Ew & _ & -> & ->). injection Ew as <-. reflexivity.
+  - destruct H as [H _]. discriminate H.
+  - destruct H as [H _]. discriminate H.
+Qed.
+
+Theorem obj_index r i h b : nth_error h r = Some b -> canon b -> 0 <= i < blen b ->
+  exists v, h_getitem_int r i h = (Ok (length h), h ++ [v]) /\ canon v /\ bside v = bside b /\
+            abs v = [nth (Z.to_nat i) (abs b) false].
+Proof.
+  intros Er C R. destruct (getint_bits b i C R) as (v & Ev & Cv & Sv & Av).
+  pose proof (h_getitem_int_refines r i h b Er) as H.
+  destruct (h_getitem_int r i h) as [[x|x|] h']; rewrite Ev in H.
+  - destruct H as (w & Ew & _ & -> & ->). injection Ew as <-. exists v. auto.
+  - destruct H as [H _]. discriminate H.
+  - destruct H as [H _]. discriminate H.
+Qed.
+
+Theorem obj_setint r i v h b vb : nth_error h r = Some b -> nth_error h v = Some vb -> canon b -> canon vb -> 0 <= i < blen b ->
+  exists w h', h_setitem_int r i v h = (Ok r, h') /\ nth_error h' r = Some w /\ canon w /\ bside w = bside b /\
+               abs w = firstn (Z.to_nat i) (abs b) ++ abs vb ++ skipn (Z.to_nat (i + 1)) (abs b).
+Proof.
+  intros Er Ev C Cv R. destruct (setint_bits b i vb C Cv R) as (w & Ew & Cw & Sw & Aw).
+  pose proof (h_setitem_int_refines r i v h b vb Er Ev) as H.
+  destruct (h_setitem_int r i v h) as [[x|x|] h']; rewrite Ew in H.
+  - destruct H as (-> & w' & E' & N). injection E' as <-. exists w, h'. auto 8.
+  - discriminate H.
+  - discriminate H.
+Qed.
+
+(* pad(): not in place a new object on the requested side with the same bits, the heap otherwise as it was *)
+Theorem obj_pad_copy r sd h b : nth_error h r = Some b -> canon b ->
+  exists v, h_pad r sd false h = (Ok (length h), h ++ [v]) /\ canon v /\ bside v = sd /\ abs v = abs b.
+Proof.
+  intros Er C. destruct (pad_bits b sd false C) as (v & Ev & Cv & Sv & Av).
+  pose proof (h_pad_refines r sd false h b Er) as H.
+  destruct (h_pad r sd false h) as [[x|x|] h']; rewrite Ev in H.
+  - destruct H as (w & Ew & _ & -> & ->). injection Ew as <-. exists v. auto.
+  - destruct H as [H _]. discriminate H.
+  - destruct H as [H _]. discriminate H.
 Qed.
 
 (* non-vacuity: one object used as both operands of + and of ^; an in-place shift of object 0 leaves object 1 alone *)
